@@ -76,6 +76,13 @@ def check(tier, seed, replay=None):
         for depth in ((17, 33) if quick else (15, 16, 17, 18, 24, 31, 32, 33, 40, 64)):
             v = G.nested(rnd, depth, ("arr", [("num", "1"), ("obj", [])]))
             recipes.append({"utf8": depth % 2 == 0, "sep": "0a", "known": True, "stdin": hexs(G.canonical(v) + b"\n"), "extra": []})
+        # long strings: plain runs around the sizes at which buffers are usually cut (8 KiB), alone, as member values behind other members, as names,
+        # with an escape in the middle
+        for n in ((8191, 8192, 9000) if quick else (1023, 1024, 4095, 4096, 8191, 8192, 8193, 9000, 16384, 20000, 65536)):
+            a = ("str", [97] * n)
+            b = ("str", [98] * (n // 2) + [34] + [233] * 3 + [98] * n)
+            v = ("obj", [([105, 100], ("num", "1")), ([116], a), ([117], ("arr", [b, ("num", "2")])), ([99] * n, ("null",))])
+            recipes.append({"utf8": n % 2 == 0, "sep": "0a", "known": True, "stdin": hexs(G.canonical(a) + b"\n" + G.canonical(v) + b"\n"), "extra": [], "long": True})
         # the witness of the known finding
         recipes.append({"utf8": False, "sep": "0a", "known": True, "stdin": hexs('"\U0001F603"'.encode()), "extra": []})
 
@@ -87,7 +94,7 @@ def check(tier, seed, replay=None):
     cases = []
     for ri, rc in enumerate(recipes):
         for key, st in STYLES:
-            cases.append({"id": len(cases), "argv": argv_of(rc, st), "stdin": rc["stdin"]})
+            cases.append(dict({"id": len(cases), "argv": argv_of(rc, st), "stdin": rc["stdin"]}, **({"wmax": rnd.choice([1, 3, 7, 64])} if ri % 4 == 1 else {})))
     obs = run_cases(jvh, cases)
     cases2 = []
     for ri, rc in enumerate(recipes):
@@ -109,6 +116,8 @@ def check(tier, seed, replay=None):
             rec[key] = list(bytes.fromhex(o[k]["out"]))
             rec[key + "2"] = list(bytes.fromhex(o2[k]["out"]))
         rec["_blobs"] = [bytes.fromhex(o[k]["out"]) for k in range(3)]
+        if rc.get("long"):
+            rec["long"] = True
         recs.append(rec)
     flags, _ = run_trace_spec("Trace_C02", recs, "c02", nproc=2 if quick else 12)
     chk.traces = len(recs)
